@@ -78,8 +78,15 @@ def build(plan, fault, rnd):
                 pn.add_child(ad, index=1)
             groups[it["el"]].append(pn)
         else:
-            tgt = "id-that-does-not-exist" if (fault[0] == "dangling" and fault[1] == k) else ids[it["tgt"]]
-            groups[it["el"]].append(party(it["el"], ref=tgt, rnd=rnd))
+            tgt = ids[it["tgt"]]
+            if fault[1] == k and fault[0].startswith("dangling"):
+                tgt = {"dangling": "id-that-does-not-exist", "dangling-no-text": None, "dangling-empty-text": ""}[fault[0]]
+            pr = party(it["el"], ref="placeholder" if tgt is None else tgt, rnd=rnd)
+            if tgt is None:
+                for r in pr.children:
+                    if r.name == "references":
+                        r.content = None           # <references/>: names nothing
+            groups[it["el"]].append(pr)
     for e in ("creator", "contact"):           # the dataset rule requires one of each
         if not groups[e]:
             groups[e].append(party(e, ident=None, rnd=rnd))
